@@ -26,7 +26,7 @@ EST = "dreye.api.estimator:ReceptorEstimator"
 
 AXES = {
     "K": (["vec", "mat", None], ["vec", "mat", None]),
-    "baseline": (["vec", None], ["vec", None]),
+    "baseline": (["vec", None], ["vec", None, "scalar"]),
     "W": (["mat", "vec"], ["mat", "vec", None]),
     "lb": (["nonneg"], ["nonneg"]),
     "bs": ([1, "sym"], [1, "sym"]),
@@ -42,7 +42,11 @@ def allow_literal(ev):
 def check(rep, an, tier):
     results = []
     for model in ("poisson", "excitation"):
-        for cfg in lsq_configs(tier, AXES):
+        cfgs = list(lsq_configs(tier, AXES))
+        if tier == "quick":
+            d0 = {n: AXES[n][0][0] for n in AXES}
+            cfgs.append(dict(d0, K=None, baseline="scalar", bs="sym"))
+        for cfg in cfgs:
             kw = lsq_inputs(K=cfg["K"], baseline=cfg["baseline"], W=cfg["W"], lb=cfg["lb"], ub="finite", bs=cfg["bs"],
                             nonneg_B=True)
             kw.update(base_kws())
